@@ -99,7 +99,10 @@ class JobControl:
         return self._active_agent
 
     def is_running(self, name) -> bool:
-        if self._active_agent is not None and self._active_agent.name == name:
+        # One read: the job may finish, and the field become None, between a
+        # test and a second look.
+        active_agent = self._active_agent
+        if active_agent is not None and active_agent.name == name:
             return True
         return name in self._background
 
